@@ -208,6 +208,8 @@ impl<'a> SpecGen<'a> {
             _ => { self.feat("any_component"); let mut o = self.object(1, false); o.as_object_mut().unwrap().remove("type"); (o, "any") }
         };
         let _ = name;
+        // a component may itself be declared nullable (an object that an allOf extends, an enum, a list)
+        if matches!(kind, "object" | "enum" | "array" | "map") && self.rng.chance(1, 8) { s["nullable"] = json!(true); self.feat("nullable_component"); }
         self.desc(&mut s);
         (s, kind)
     }
